@@ -29,6 +29,8 @@ type Obligation struct {
 	script *Script
 	Inputs map[string]string // model-relevant named inputs: label -> smt term
 	// results
+	Blk     int // block of the verification unit at which the obligation arises
+	anc     map[int]bool // blocks from which Blk is reachable (assumptions of other blocks are vacuous)
 	Status  string
 	Cover   string
 	Solver  string
@@ -91,6 +93,7 @@ type fnCtx struct {
 	sweep      bool
 	inputs     map[string]string
 	lkeys      map[string]bool
+	ancestors  map[int]map[int]bool // block -> set of blocks that can reach it (forward CFG), incl. itself
 }
 
 type frame struct {
@@ -116,6 +119,7 @@ type frame struct {
 	siteOK   map[*ssa.Alloc]bool
 	lastRange string
 	evalBlock *ssa.BasicBlock // program point at which contract expressions are being evaluated
+	curCall  *ssa.CallCommon
 	noEsc    bool // suppress the "escaped" assumption (loop-carried locals)
 }
 
@@ -136,6 +140,9 @@ type loopInfo struct {
 	writes  map[string]bool
 	head    *state
 	entry   *state
+	outer   *LoopSpec // clauses supplied by the verification unit this function is inlined into
+	siteWrites map[string]bool // site-specific keys stored to directly inside the loop
+	closures bool // the loop creates, defers or calls closures / inlined code
 }
 
 func (fc *fnCtx) abstract(format string, a ...interface{}) {
@@ -185,7 +192,7 @@ func (fc *fnCtx) havoc(st *state, key string) {
 		}
 		return
 	}
-	if key == "EXT" || key == "CH" {
+	if key == "EXT" || key == "CH" || strings.HasPrefix(key, "PARAM:") {
 		return
 	}
 	st.heap[key] = fc.sc.declare("hv_"+shortKey(key), heapSort(fc.e.u, key))
@@ -194,7 +201,67 @@ func (fc *fnCtx) havoc(st *state, key string) {
 // havocKeys havocs type-based keys including every site-specific variant that is reachable
 // by the callee (site keys of escaping allocations are never created, so only exact keys
 // and closure-captured site keys listed explicitly are affected).
+// pointHavoc havocs field key k only at object ref (the callee writes that field through this object only).
+func (fc *fnCtx) pointHavoc(st *state, k string, ref string) {
+	srt := heapSort(fc.e.u, k)
+	// element sort of (Array Int X)
+	es := strings.TrimSuffix(strings.TrimPrefix(srt, "(Array Int "), ")")
+	v := fc.sc.declare("hvp_"+shortKey(k), es)
+	fc.hset(st, k, app("store", fc.hget(st, k), ref, v))
+}
+
+// resolveBased splits effect keys into whole-key havocs and point havocs. argOf maps a parameter index of
+// the callee to the term of the actual argument ("" if unknown).
+func resolveBased(keys []string, argOf func(int) string) (whole []string, points map[string][]string) {
+	points = map[string][]string{}
+	plain := map[string]bool{}
+	for _, k := range keys {
+		if !strings.Contains(k, "#") {
+			plain[k] = true
+		}
+	}
+	for _, k := range keys {
+		i := strings.Index(k, "#")
+		if i < 0 {
+			whole = append(whole, k)
+			continue
+		}
+		base, cls := k[:i], k[i:]
+		if plain[base] {
+			continue
+		}
+		switch {
+		case cls == "#FRESH":
+			// only objects allocated by the callee: nothing that existed before changes
+		case strings.HasPrefix(cls, "#P"):
+			var j int
+			fmt.Sscanf(cls, "#P%d", &j)
+			a := ""
+			if argOf != nil {
+				a = argOf(j)
+			}
+			if a == "" {
+				whole = append(whole, base)
+				plain[base] = true
+			} else {
+				points[base] = append(points[base], a)
+			}
+		default:
+			whole = append(whole, base)
+			plain[base] = true
+		}
+	}
+	for b := range points {
+		if plain[b] {
+			delete(points, b)
+		}
+	}
+	return
+}
+
 func (fc *fnCtx) havocKeys(st *state, keys []string) {
+	keys, pts := resolveBased(keys, nil)
+	_ = pts
 	seen := map[string]bool{}
 	for _, k := range keys {
 		if seen[k] {
@@ -296,14 +363,36 @@ func (fr *frame) oblige1(st *state, kind, anchor string, pos token.Pos, cond str
 		anchor = anchor + "@" + prefix
 	}
 	o := &Obligation{Name: fc.oblName(kind, anchor), Func: fc.key, Kind: kind, Anchor: anchor, Pos: ps,
-		Prefix: len(fc.sc.lines), Reach: st.reach, Cond: cond, Desc: desc, script: fc.sc, Inputs: fc.inputs}
+		Prefix: len(fc.sc.lines), Reach: st.reach, Cond: cond, Desc: desc, script: fc.sc, Inputs: fc.inputs, Blk: fc.sc.cur}
+	if fc.sc.cur >= 0 && fc.ancestors != nil {
+		o.anc = fc.ancestors[fc.sc.cur]
+	}
 	fc.obls = append(fc.obls, o)
 }
 
 // CoverQuery asks whether the obligation's program point is reachable under the assumptions.
+// relevant: a script line belongs to the query if it is global or was emitted by a block from which the
+// obligation's block can be reached; assumptions of other blocks are guarded by reach conditions that are
+// false on every path to the obligation, so leaving them out loses nothing (and is sound in any case).
+func (o *Obligation) relevant(i int) bool {
+	if o.anc == nil || i >= len(o.script.tags) {
+		return true
+	}
+	t := o.script.tags[i]
+	if t < 0 || o.anc[t] {
+		return true
+	}
+	// declarations and definitions are kept (they may be referenced, e.g. by deferred calls); only the
+	// assumptions of unrelated blocks are dropped
+	return !strings.HasPrefix(o.script.lines[i], "(assert")
+}
+
 func (o *Obligation) CoverQuery(u *Universe) string {
 	var sb strings.Builder
-	for _, l := range o.script.lines[:o.Prefix] {
+	for i, l := range o.script.lines[:o.Prefix] {
+		if !o.relevant(i) {
+			continue
+		}
 		sb.WriteString(l)
 		sb.WriteString("\n")
 	}
@@ -314,7 +403,10 @@ func (o *Obligation) CoverQuery(u *Universe) string {
 
 func (o *Obligation) Query(u *Universe, wantModel bool) string {
 	var sb strings.Builder
-	for _, l := range o.script.lines[:o.Prefix] {
+	for i, l := range o.script.lines[:o.Prefix] {
+		if !o.relevant(i) {
+			continue
+		}
 		sb.WriteString(l)
 		sb.WriteString("\n")
 	}
@@ -352,6 +444,7 @@ func (e *Engine) genFunction(fn *ssa.Function) (fc *fnCtx, err error) {
 		}
 	}()
 	fc.c.Used = true
+	fc.sc.cur = -1
 	if fc.c.Trusted {
 		fc.abstract("TRUSTED contract: body not verified")
 		return fc, nil
@@ -396,6 +489,7 @@ func (e *Engine) genFunction(fn *ssa.Function) (fc *fnCtx, err error) {
 	fr.run(st, args)
 	// returns
 	for _, rr := range fr.retStates {
+		fc.sc.cur = rr.instr.Block().Index
 		fr.evalBlock = rr.instr.Block()
 		env := fr.specEnv(rr.st, fr.old)
 		fr.bindResults(env, rr.results)
@@ -407,13 +501,18 @@ func (e *Engine) genFunction(fn *ssa.Function) (fc *fnCtx, err error) {
 		for _, pd := range fc.c.PostDefs {
 			fc.sc.assume(implies(rr.st.reach, env.evalBool(pd.Expr, pd.Src)))
 		}
+		// returns inside a switch arm are named after the arm (stable and telling: walk#post:out@case:*parse.SetNode)
+		where := ""
+		if cs := fr.anchorText(rr.instr.Pos(), "case"); cs != "" {
+			where = "@case:" + cs
+		}
 		for i, en := range fc.c.Ensures {
 			label := en.Label
 			if label == "" {
 				label = fmt.Sprintf("e%d", i+1)
 			}
 			t := env.evalBool(en.Expr, en.Src)
-			fr.oblige(rr.st, "post", label, rr.instr.Pos(), t, en.Src)
+			fr.oblige(rr.st, "post", label+where, rr.instr.Pos(), t, en.Src)
 		}
 		for i, en := range fc.c.Asserts {
 			label := en.Label
@@ -421,7 +520,7 @@ func (e *Engine) genFunction(fn *ssa.Function) (fc *fnCtx, err error) {
 				label = fmt.Sprintf("a%d", i+1)
 			}
 			t := env.evalBool(en.Expr, en.Src)
-			fr.oblige(rr.st, "post", label, rr.instr.Pos(), t, en.Src)
+			fr.oblige(rr.st, "post", label+where, rr.instr.Pos(), t, en.Src)
 		}
 	}
 	return fc, nil
@@ -606,11 +705,54 @@ func (fr *frame) prepare() {
 		if c != nil {
 			li.spec = c.Loops[i+1]
 		}
+		// when this function is inlined, the enclosing verification unit may add clauses for its loops;
+		// they are evaluated in the enclosing function's frame (its parameters, old state and locals)
+		if !fr.top {
+			if extra := fr.fc.c.InLoops[fmt.Sprintf("%s:%d", key, i+1)]; extra != nil {
+				li.outer = extra
+			}
+		}
 		li.writes = map[string]bool{}
+		li.siteWrites = map[string]bool{}
 		for b := range li.blocks {
 			for _, in := range b.Instrs {
 				for _, k := range fr.fc.e.instrEffects(fn, in) {
 					li.writes[k] = true
+					if strings.HasSuffix(k, "#FRESH") {
+						// fields of objects allocated in the loop: site-specific variants may exist
+						li.writes[stripBase(k)+"#FRESHBASE"] = true
+					}
+				}
+				switch v := in.(type) {
+				case *ssa.Store:
+					// direct store to a local cell / local struct: its site-specific key
+					base := v.Addr
+					for {
+						if fa, ok := base.(*ssa.FieldAddr); ok {
+							base = fa.X
+							continue
+						}
+						break
+					}
+					if site := fr.siteOf(base); site != "" {
+						for _, k := range fr.fc.e.addrKeys(v.Addr) {
+							li.siteWrites[k+site] = true
+						}
+					}
+				case *ssa.MakeClosure, *ssa.Defer, *ssa.Go:
+					li.closures = true
+				case *ssa.Call:
+					if _, ok := v.Call.Value.(*ssa.MakeClosure); ok {
+						li.closures = true
+					}
+					if fr.lookupClosure(v.Call.Value) != nil {
+						li.closures = true
+					}
+					if g := v.Call.StaticCallee(); g != nil && fr.fc.e.isRepoFn(g) {
+						if ct := fr.fc.e.contracts.Funcs[fr.fc.e.keyOf(g)]; (ct != nil && ct.Inline) || fr.fc.c.Inlines[fr.fc.e.keyOf(g)] {
+							li.closures = true // inlined code may store to cells of enclosing frames
+						}
+					}
 				}
 			}
 		}
@@ -657,7 +799,13 @@ func (fr *frame) run(st *state, args []string) {
 		return
 	}
 	fr.in[fn.Blocks[0]] = st
+	if fr.top {
+		fr.fc.computeAncestors(fn)
+	}
 	for _, b := range fr.order {
+		if fr.top {
+			fr.fc.sc.cur = b.Index
+		}
 		var cur *state
 		if b == fn.Blocks[0] {
 			cur = st
@@ -727,7 +875,7 @@ func (fr *frame) mergeInto(b *ssa.BasicBlock) *state {
 		if same {
 			res.heap[k] = fr.fc.hget(ins[0], k)
 		} else {
-			res.heap[k] = sc.define("hm_"+shortKey(k), heapSort(fr.fc.e.u, k), t)
+			res.heap[k] = sc.defineConst("hm_"+shortKey(k), heapSort(fr.fc.e.u, k), t)
 		}
 	}
 	t := ins[len(ins)-1].alloc
@@ -975,6 +1123,28 @@ func (fr *frame) enterLoop(h *ssa.BasicBlock, li *loopInfo, cur *state) {
 			}
 		}
 	}
+	if li.outer != nil {
+		top := fr.topFrame()
+		for i, p := range h.Preds {
+			if h.Dominates(p) {
+				continue
+			}
+			es, ok := fr.edges[[2]int{p.Index, h.Index}]
+			if !ok {
+				continue
+			}
+			_ = i
+			env := top.specEnv(es, top.old)
+			env.entry = li.entry
+			for j, inv := range li.outer.Invariants {
+				label := inv.Label
+				if label == "" {
+					label = fmt.Sprintf("o%d", j+1)
+				}
+				fr.oblige(es, "inv", fmt.Sprintf("loop%d.%s.init", li.ordinal, label), loopPos(h), env.evalBool(inv.Expr, inv.Src), inv.Src)
+			}
+		}
+	}
 	// 2. havoc phis and written heap
 	for _, in := range h.Instrs {
 		phi, ok := in.(*ssa.Phi)
@@ -998,17 +1168,53 @@ func (fr *frame) enterLoop(h *ssa.BasicBlock, li *loopInfo, cur *state) {
 	}
 	// site-specific keys present in the state whose base key is written
 	for k := range cur.heap {
-		if i := strings.Index(k, "@"); i >= 0 && li.writes[k[:i]] {
-			ks = append(ks, k)
+		if i := strings.Index(k, "@"); i >= 0 && (li.writes[k[:i]] || li.writes[k[:i]+"#FRESH"] || li.writes[k[:i]+"#P0"] || li.writes[k[:i]+"#P1"]) {
+			// callees cannot reach cells of non-escaping locals (they have site-specific keys); such a key
+			// changes in the loop only through a direct store, or through closure / inlined code
+			if li.siteWrites[k] || li.closures || !fr.top {
+				ks = append(ks, k)
+			}
 		}
 	}
-	fc.havocKeys(cur, ks)
+	{
+		whole, pts := resolveBased(ks, func(j int) string {
+			if j < len(fr.fn.Params) {
+				if t, ok := fr.regs[fr.fn.Params[j]]; ok {
+					return t
+				}
+			}
+			return ""
+		})
+		fc.havocKeys(cur, whole)
+		var pks []string
+		for k := range pts {
+			pks = append(pks, k)
+		}
+		sort.Strings(pks)
+		for _, k := range pks {
+			done := map[string]bool{}
+			for _, ref := range pts[k] {
+				if !done[ref] {
+					done[ref] = true
+					fc.pointHavoc(cur, k, ref)
+				}
+			}
+		}
+	}
 	oldAlloc := cur.alloc
 	cur.alloc = sc.declare("alloc", "Int")
 	sc.assume(fmt.Sprintf("(>= %s %s)", cur.alloc, oldAlloc))
 	// 3. assume invariants
 	li.hvars = fr.loopVars(h)
 	li.head = cur.clone()
+	if li.outer != nil {
+		top := fr.topFrame()
+		env := top.specEnv(cur, top.old)
+		env.entry = li.entry
+		for _, inv := range li.outer.Invariants {
+			sc.assume(implies(cur.reach, env.evalBool(inv.Expr, inv.Src)))
+		}
+	}
 	if spec != nil {
 		env := fr.specEnv(cur, fr.old)
 		env.entry = li.entry
@@ -1102,9 +1308,29 @@ func (fr *frame) backEdge(p *ssa.BasicBlock, h *ssa.BasicBlock, es *state) {
 			fr.oblige(es, "dec", fmt.Sprintf("loop%d", li.ordinal), loopPos(h), cond, "decreases "+li.spec.Decreases.Src)
 		}
 	}
+	if li.outer != nil {
+		top := fr.topFrame()
+		env := top.specEnv(es, top.old)
+		env.entry = li.entry
+		for j, inv := range li.outer.Invariants {
+			label := inv.Label
+			if label == "" {
+				label = fmt.Sprintf("o%d", j+1)
+			}
+			fr.oblige(es, "inv", fmt.Sprintf("loop%d.%s.step", li.ordinal, label), loopPos(h), env.evalBool(inv.Expr, inv.Src), inv.Src)
+		}
+	}
 	for phi, v := range saved {
 		fr.regs[phi] = v
 	}
+}
+
+func (fr *frame) topFrame() *frame {
+	f := fr
+	for !f.top && f.parent != nil {
+		f = f.parent
+	}
+	return f
 }
 
 // ---------------------------------------------------------------------------
@@ -1431,6 +1657,13 @@ func (fr *frame) anchorText(pos token.Pos, want string) string {
 			if want == "assert-type" {
 				return e.sourceText(nn.Pos(), nn.End())
 			}
+		case *ast.CaseClause:
+			if want == "case" {
+				if len(nn.List) == 0 {
+					return "default"
+				}
+				return e.sourceText(nn.List[0].Pos(), nn.List[len(nn.List)-1].End())
+			}
 		case ast.Stmt:
 			if want == "stmt" {
 				return e.sourceText(nn.Pos(), nn.End())
@@ -1475,6 +1708,10 @@ func (fc *fnCtx) fieldInvOf(key string) (string, bool) {
 }
 
 func nonNilTerm(v, sort string) string {
+	if strings.HasPrefix(sort, "S_") {
+		// a struct value: its first field (wrappers around a single pointer, e.g. macroDef{*MacroNode})
+		return fmt.Sprintf("(not (= (%s %s) 0))", structFirstField[sort], v)
+	}
 	switch sort {
 	case "Val":
 		return fmt.Sprintf("(not (= (vtag %s) 0))", v)
@@ -1502,7 +1739,26 @@ func (fr *frame) markEscaped(st *state, v string, t types.Type) {
 // have not escaped (ESC false) are preserved: a callee can only reach what has been stored in the heap
 // or passed to it.
 func (fc *fnCtx) havocFramed(st *state, pre *state, keys []string) {
+	fc.havocFramedArgs(st, pre, keys, nil)
+}
+
+func (fc *fnCtx) havocFramedArgs(st *state, pre *state, keys []string, argOf func(int) string) {
 	sc := fc.sc
+	keys, pts := resolveBased(keys, argOf)
+	var pks []string
+	for k := range pts {
+		pks = append(pks, k)
+	}
+	sort.Strings(pks)
+	for _, k := range pks {
+		done := map[string]bool{}
+		for _, ref := range pts[k] {
+			if !done[ref] {
+				done[ref] = true
+				fc.pointHavoc(st, k, ref)
+			}
+		}
+	}
 	seen := map[string]bool{}
 	for _, k := range keys {
 		if k == "*" {
@@ -1518,7 +1774,7 @@ func (fc *fnCtx) havocFramed(st *state, pre *state, keys []string) {
 	sort.Strings(ks)
 	esc := fc.hget(pre, "ESC")
 	for _, k := range ks {
-		if k == "EXT" || k == "CH" || k == "ESC" {
+		if k == "EXT" || k == "CH" || k == "ESC" || strings.HasPrefix(k, "PARAM:") {
 			continue
 		}
 		old := fc.hget(pre, k)
@@ -1598,3 +1854,37 @@ func (fc *fnCtx) localKeys() map[string]bool {
 	visit(fc.fn)
 	return fc.lkeys
 }
+
+// computeAncestors: for every block of the verification unit, the blocks that can reach it along
+// forward edges (the loop-cut CFG is a DAG; a back edge's source keeps its own tag).
+func (fc *fnCtx) computeAncestors(fn *ssa.Function) {
+	fc.ancestors = map[int]map[int]bool{}
+	var visit func(b *ssa.BasicBlock) map[int]bool
+	visiting := map[int]bool{}
+	visit = func(b *ssa.BasicBlock) map[int]bool {
+		if a, ok := fc.ancestors[b.Index]; ok {
+			return a
+		}
+		if visiting[b.Index] {
+			return map[int]bool{}
+		}
+		visiting[b.Index] = true
+		a := map[int]bool{b.Index: true}
+		for _, p := range b.Preds {
+			if b.Dominates(p) {
+				continue // back edge
+			}
+			for k := range visit(p) {
+				a[k] = true
+			}
+		}
+		fc.ancestors[b.Index] = a
+		return a
+	}
+	for _, b := range fn.Blocks {
+		visit(b)
+	}
+}
+
+// structFirstField: accessor of the first field of struct sorts (filled when sorts are built).
+var structFirstField = map[string]string{}
